@@ -253,6 +253,13 @@ def idempotent_appliers(ctx, p):
                                 out.append('element read %s at %s' % (core.place_str(pl), body.loc(bi)))
             return out
         bad = misuse(b, seeds)
+        # a view created in a private helper of the applier (`store_modified_entries(chunk_ptr, log)`)
+        for hn, hb in sorted(F.bodies.items()):
+            if hn != fn and hn.split('::')[0] == fn.split('::')[0] and '{closure' not in hn and lib.confined_through(F, hn, {fn}):
+                hs = [hb.term(s)['d'][0] for s in hb.call_sites('std::slice::from_raw_parts_mut', 'core::slice::from_raw_parts_mut', 're:Atomic.*::from_ptr$')]
+                if hs:
+                    seeds = seeds + hs
+                    bad += misuse(hb, hs)
         ctx.ob(p + 'c no-read-modify-write %s' % fn, 'K4-dataflow', fn,
                'the raw mutable view of the mapped chunk is only ever handed to LogReader::read (never read back, combined or copied from)', not bad and bool(seeds), '; '.join(bad[:3]))
 
